@@ -164,7 +164,22 @@ def ctor_bindings(stmts):
                     elif isinstance(v, ast.Constant):
                         out.append((kw.arg, "literal", repr(v.value)))
                     elif isinstance(v, ast.Name):
-                        out.append((kw.arg, "name", v.id))
+                        # a local: resolve it through its (unique) assignment from a file key in the same branch
+                        keys = []
+                        for st2 in stmts:
+                            for n2 in ast.walk(st2):
+                                if isinstance(n2, ast.Assign) and len(n2.targets) == 1 and isinstance(n2.targets[0], ast.Name) \
+                                        and n2.targets[0].id == v.id:
+                                    for sub in ast.walk(n2.value):
+                                        if isinstance(sub, ast.Subscript):
+                                            kk = _subscript_key(sub)
+                                            if kk:
+                                                keys.append(kk[1])
+                                                break
+                        if len(set(keys)) == 1:
+                            out.append((kw.arg, "key", keys[0]))
+                        else:
+                            out.append((kw.arg, "name", v.id))
                     else:
                         out.append((kw.arg, "other", "?"))
                 return out
@@ -196,7 +211,8 @@ def trainer_decoded(stmts):
                 for kw in node.keywords:
                     if kw.arg == "trainer":
                         src = ast.dump(kw.value)
-                        return ("decode" in src) or ("asstr" in src) or ("str" in src and "Name(id='str'" in src)
+                        if ("decode" in src) or ("asstr" in src) or ("str" in src and "Name(id='str'" in src):
+                            return True
     # trainer may be decoded into a local first
     for st in stmts:
         src = ast.dump(st)
